@@ -321,9 +321,10 @@ def sim_histories(rep, module, cfg, consts, label, header, name, num, depth, wor
             raise Inconclusive("constant %s not in %s" % (k, cfg))
     open(os.path.join(d, cfg), "w").write(text)
     so = os.path.join(d, "stdout.txt")
-    per = max(1, (num + workers - 1) // workers)
+    # TLC stops all workers once enough traces are complete, so unfinished walks are lost: ask for more than needed
+    per = max(2, (2 * num + workers - 1) // workers)
     r = vlib.run_tlc(d, module, cfg, workers=workers, timeout=timeout, stdout_file=so,
-                     extra=["-simulate", "num=%d" % per, "-depth", str(depth + 1), "-seed", str(rep.seed)], heap="4g")
+                     extra=["-simulate", "num=%d" % per, "-depth", str(depth + 4), "-seed", str(rep.seed)], heap="4g")
     if "Error:" in r.out:
         raise Inconclusive("TLC simulation of %s/%s failed (defect of the MODEL):\n%s" % (module, cfg, r.out[-3000:]))
     log("simulate %s %s: %.1fs" % (module, label, r.wall))
@@ -450,6 +451,79 @@ def check_C05(rep):
     array_stages(rep, "ArrayTrace_C05.cfg", "real Array slab tree violates well-formedness", "c05")
 
 
+# ---------------------------------------------------------------------------
+# map engine (MapDict / MapTree / TreeInv / MapTrace)
+
+def keyset(n):
+    return "{" + ", ".join(str(i) for i in range(1, n + 1)) + "}"
+
+
+def map_collide_stage(rep, tcfg, what, prefix, limit, nkeys, fraction):
+    consts = {"EmitEdges": "TRUE", "Limit": limit, "Keys": keyset(nkeys)}
+    sel = (lambda ops, key: frac(key + rep.seed, fraction[0], fraction[1])) if fraction else None
+    name = "%s-mc-l%d" % (prefix, limit)
+    files, n, total = model_histories(rep, "MC_Map.tla", "MC_Map.cfg", consts,
+                                      "MC_Map %d keys, all digest assignments over {0,1}^4, values {12,40}, limit %d" % (nkeys, limit),
+                                      {"cfg": {"T": 256, "limit": limit}}, sel, name)
+    base = len(rep.distinct)
+    rep.distinct.update(range(base, base + n))
+    st = "%s-collide-l%d" % (prefix, limit)
+    hist_stage(rep, st, ["map-run"], "map", "MapTrace.tla", tcfg, files, "edge", what)
+    rep.stages[st]["selected_of_distinct_histories"] = [n, total]
+    return fraction is None
+
+
+def map_walk_stage(rep, tcfg, what, prefix, T, nkeys, mode, ksz, vsizes, maxel, num, depth, limit=255):
+    nm = "%s-sim%d-%s" % (prefix, T, mode)
+    wf, wn = sim_histories(rep, "MC_MapWalk.tla", "MC_MapWalk.cfg",
+                           {"Keys": keyset(nkeys), "DigMode": '"%s"' % mode, "KSz": ksz, "VSizes": vsizes,
+                            "Limit": limit, "GrowUntil": depth // 3, "ShrinkFrom": depth - depth // 3},
+                           "MC_MapWalk T=%d %d keys digests=%s" % (T, nkeys, mode), {"cfg": {"T": T, "limit": limit}}, nm, num, depth)
+    base = len(rep.distinct)
+    rep.distinct.update(range(base, base + wn))
+    hist_stage(rep, nm, ["map-run"], "map", "MapTrace.tla", tcfg, wf, "full", what)
+
+
+def map_stages(rep, tcfg, what, prefix, collide=True):
+    quick = rep.tier == "quick"
+    ex = True
+    if collide:
+        ex = map_collide_stage(rep, tcfg, what, prefix, 255, 3, (1, 24) if quick else None)
+    # slab-level behaviour: many keys with spread digests (splits, merges, first-key changes) and clustered digests
+    walks = [(256, 40, "spread", 5, "{12, 40, 60}", 107, 16 if quick else 200, 150 if quick else 400),
+             (256, 24, "clustered", 5, "{12, 40}", 107, 12 if quick else 200, 120 if quick else 300)]
+    if not quick:
+        walks += [(512, 60, "spread", 9, "{12, 100, 200}", 235, 100, 500), (1024, 60, "clustered", 9, "{12, 200, 400}", 491, 60, 500)]
+    for (T, nkeys, mode, ksz, vs, maxel, num, depth) in walks:
+        map_walk_stage(rep, tcfg, what, prefix, T, nkeys, mode, ksz, vs, maxel, num, depth)
+    rep.exhaustive = ex and not quick
+
+
+def check_C02(rep):
+    rep.rule = ("histories = (a) every transition of the TLC state graph of the map model for every digest assignment over {0,1}^4 "
+                "of 3 keys and (b) TLC-simulated grow/churn/shrink walks over 24-60 keys with spread and clustered digests at several "
+                "slab sizes, replayed into the real OrderedMap with a table-driven digester; every call must be explained by the "
+                "dictionary model (returned value, previous value, removed pair, presence, count, type, error class) and the "
+                "observed slab forest must hold exactly the dictionary's pairs")
+    rep.assumptions += ["keys and values are id-carrying strings; digests come from a table-driven DigesterBuilder through the public interface"]
+    map_stages(rep, "MapTrace_C02.cfg", "real OrderedMap diverges from the dictionary model", "c02")
+
+
+def check_C12(rep):
+    rep.rule = ("every digest assignment over {0,1}^4 for 3 keys (4 in thorough) x all insert/update/remove histories to closure "
+                "(TLC), collision limits 0,1,2,255; each explored transition replayed into the real OrderedMap; dictionary semantics, "
+                "refusal exactly by the layer-A rule (new key and more than `limit` distinct second-level digests under its first-level "
+                "digest), refused inserts leave the map unchanged, structure valid (TreeInv) after every step")
+    quick = rep.tier == "quick"
+    what = "real OrderedMap diverges from the dictionary-with-collision-limit model"
+    ex = map_collide_stage(rep, "MapTrace_C12.cfg", what, "c12", 255, 3, (1, 16) if quick else None)
+    for lim in (0, 1, 2):
+        ex = map_collide_stage(rep, "MapTrace_C12.cfg", what, "c12", lim, 3, (1, 24) if quick else None) and ex
+    map_walk_stage(rep, "MapTrace_C12.cfg", what, "c12", 256, 24, "clustered", 5, "{12, 40}", 107, 12 if quick else 300, 120 if quick else 300)
+    map_walk_stage(rep, "MapTrace_C12.cfg", what, "c12l1", 256, 24, "clustered", 5, "{12, 40}", 107, 8 if quick else 200, 100 if quick else 300, limit=1)
+    rep.exhaustive = ex
+
+
 def replay(rep, path):
     payload = json.load(open(path))
     eng = payload.get("engine")
@@ -467,7 +541,9 @@ def replay(rep, path):
 
 CHECKS = {
     "C01": check_C01,
+    "C02": check_C02,
     "C05": check_C05,
+    "C12": check_C12,
     "C14": check_C14,
     "C15": check_C15,
 }
